@@ -294,7 +294,9 @@ TLSMsgs == [kind : {"hello", "alert", "appdata", "sslv2", "http", "emptyrec", "s
 TLSCfgs == [sni : {<<>>, <<"a.example.com">>}, alpn : {<<>>, <<"h2">>}]
 \* (a handshake record that ends inside the ClientHello's own header may be the first fragment of a hello that
 \* continues in the next record: left open)
-TLSRef(m, cfg) == IF m.kind = "shortrec" THEN "X"
+\* The matcher documents "matches if the connection is a TLS handshake": whether a handshake record that carries no
+\* ClientHello (empty, another message type) counts is left open as well; such records are there for C04 and C06.
+TLSRef(m, cfg) == IF m.kind \in {"shortrec", "emptyrec", "notch"} THEN "X"
                   ELSE IF m.kind # "hello" THEN "N"
                   ELSE IF /\ (cfg.sni = <<>> \/ m.sni = "a.example.com")
                           /\ (cfg.alpn = <<>> \/ m.alpn = "h2")
